@@ -63,8 +63,38 @@ def shape_of(src):
     return feats
 
 
+def noncanonical_builtins(db):
+    """the five labels exec_proof recognises by spelling, stated other than canonically over their mandatory
+    variables in $f order"""
+    V, A, imp = G.V, G.A, G.imp
+    bad = []
+    for a in db.assertions():
+        vs = [v for _, v in db.mand_floats(a)]
+        t = a.terms[0] if a.terms else None
+        if a.label in ('imp-is-pattern', 'app-is-pattern') and a.tc == '#Pattern':
+            c = G.IMP if a.label.startswith('imp') else G.APP
+            if len(vs) != 2 or t != A(c, V(vs[0]), V(vs[1])):
+                bad.append(a.label)
+        elif a.label == 'proof-rule-prop-1' and a.tc == '|-':
+            if len(vs) != 2 or a.ess or t != imp(V(vs[0]), imp(V(vs[1]), V(vs[0]))):
+                bad.append(a.label)
+        elif a.label == 'proof-rule-prop-2' and a.tc == '|-':
+            if len(vs) != 3 or a.ess:
+                bad.append(a.label)
+            else:
+                x, y, z = (V(v) for v in vs)
+                if t != imp(imp(x, imp(y, z)), imp(imp(x, y), imp(x, z))):
+                    bad.append(a.label)
+        elif a.label == 'proof-rule-mp' and a.tc == '|-':
+            if len(vs) != 2 or t != V(vs[1]) or [e for _, e in a.ess] != [imp(V(vs[0]), V(vs[1])), V(vs[0])]:
+                bad.append(a.label)
+        elif a.label.startswith('proof-rule-') and a.tc == '|-':
+            bad.append(a.label)
+    return bad
+
+
 def mk_case(name, src, target, kind, db=None, proofs=None, info=None):
-    c = dict(name=name, src=src, target=target, kind=kind, info=info or {}, tk=None, tl=None)
+    c = dict(name=name, src=src, target=target, kind=kind, info=info or {}, tk=None, tl=None, db=db)
     if db is not None:
         tk, lab = db.encode(lambda l: proofs[l])
         c['tk'] = ' '.join(tk)
@@ -310,6 +340,8 @@ def evaluate(R, cases, mlref, rsref, tier):
     for c in cases:
         o = c['impl']
         feats = shape_of(c['src'])
+        if c.get('db') is not None and noncanonical_builtins(c['db']):
+            feats.insert(0, 'noncanonical-builtin-statement')
         valid = c['oracle']
         in_model = c['tk'] is not None
         frag = in_model and c.get('m_frag') == '1'
@@ -321,7 +353,7 @@ def evaluate(R, cases, mlref, rsref, tier):
             mismatches.append(('verifier', c['name'], 'model mm_verify=' + c['m_verify'], f'oracle valid={valid} {c["oracle_why"]}'))
         # ---- tie 2: translator model vs implementation (unoptimised bytes), on every modelled input
         m_ok = in_model and c['m_x'].startswith('OK')
-        tie_applies = in_model and (frag or c['kind'] in ('generated', 'mutant'))
+        tie_applies = frag        # outside in_fragment the model claims nothing (e.g. free metavariable in a notation body)
         if tie_applies:
             if m_ok != bool(o.get('ok')):
                 mismatches.append(('translate-outcome', c['name'], c['m_x'][:120], json.dumps(o)[:300]))
